@@ -6,6 +6,7 @@ from vmon.checks.common import obs, fail, both_views, random_prefix, apply_prefi
 EXTREMES = "seq"   # worker re-labels every sixth case to the ends of the legal ranges (gen.extremify)
 RESTATE = "seq"    # worker adds a signature restating the one in force to every fifth case (gen.restate_signatures)
 CANONICAL_ABS = True   # cut-off pairs notes over the canonically sorted list (oracle.abs_order)
+SPLIT_WAITS = "seq"   # worker: every fifth case is built from relative messages with rests split into adjacent waits
 PROP = "C18"
 MONITORS = ["c18"]
 INSITU = {"k": "pad or cutoff or scale or tokenisation or bar or composition or channel"}
